@@ -1,6 +1,7 @@
 /- C08 — property theorems (only). Helper lemmas: Proofs/C08Handler.lean, Proofs/C08Writer.lean -/
 import XsdataModel.Proofs.C08Handler
 import XsdataModel.Proofs.C08Writer
+import XsdataModel.Proofs.C08Bridge
 import XsdataModel.Proofs.C08Sources
 import XsdataModel.Proofs.C08LxmlText
 import XsdataModel.Proofs.C11Pipeline
@@ -84,20 +85,19 @@ example : (reaches exWorld [] (.str "<r/>".toList)).map List.length = some 2
     ∧ (reaches exWorld [] (.str "<q/>".toList)).map List.length = some 0
     ∧ (reaches exWorld [] (.path "/nowhere".toList)).map List.length = none := by decide
 
-/-- **source_tree_element_same**: an ElementTree tree and its root element are the same source
-(`source.getroot()`) -/
-theorem source_tree_element_same (W : World) (wk : List (Str × Str)) (t : XTree) :
-    reaches W wk (.etTree t) = reaches W wk (.etElement t) := rfl
-
-/-- **source_tree_same_core**: an ElementTree source and a byte-level source of the same document make
-the same parser calls *prefixes aside* (element names, attributes, text, tails, in the same order):
-if the tokeniser reports the events of document `d` for the bytes `b`, parsing the tree of `d` differs
-from parsing `b` in the `register_namespace` calls and the prefix maps only. -/
+/-- **source_tree_same_core**: an ElementTree tree, its root element (`source.getroot()`) and a
+byte-level source of the same document make the same parser calls *prefixes aside* (element names,
+attributes, text, tails, in the same order): if the tokeniser reports the events of document `d` for
+the bytes `b`, parsing the tree of `d` differs from parsing `b` in the `register_namespace` calls and
+the prefix maps only. -/
 theorem source_tree_same_core (W : World) (wk : List (Str × Str)) (d : XTree) (src : Src) (b : Bytes)
     (hc : src.content W = some b) (htok : W.tokenise b = toks d) :
+    (nativeParse W wk (.etTree d)).map (·.filterMap PEv.core) = some (coreOf d) ∧
     (nativeParse W wk (.etElement d)).map (·.filterMap PEv.core) = some (coreOf d) ∧
     (nativeParse W wk src).map (·.filterMap PEv.core) = some (coreOf d) := by
-  constructor
+  refine ⟨?_, ?_, ?_⟩
+  · simp only [nativeParse, reaches, toHSource, nativeContext, Option.map_some]
+    rw [(iterwalk_eq_toks wk d []).1, pump_core_doc, coreOf_redecl]
   · simp only [nativeParse, reaches, toHSource, nativeContext, Option.map_some]
     rw [(iterwalk_eq_toks wk d []).1, pump_core_doc, coreOf_redecl]
   · simp only [nativeParse, reaches_of_content W wk src b hc, Option.map_some, htok, pump_core_doc]
@@ -135,18 +135,17 @@ example : nativeParseTree [] (.node [("p".toList, "urn:a".toList)] "{urn:a}r".to
 
 /-! ## handlers: the character data the lxml handler reads -/
 
-/-- **lxml_text_whole**: `get_text` returns the infoset's text of the element — all the character data
-in front of the first child element — for every content sequence, however many comments and
-processing instructions (adjacent ones included, with or without character data behind them) libxml2
-has split it by.  That is what the native handler (expat / ElementTree: no such nodes) passes. -/
-theorem lxml_text_whole (content : List Content) :
-    getText (view content).1 (view content).2 = leadData content :=
-  joinTails_view content
-
-/-- **lxml_tail_whole**: the same for `get_tail` and what follows a node among its siblings. -/
-theorem lxml_tail_whole (after : List Content) :
-    getTail (view after).1 (view after).2 = leadData after :=
-  joinTails_view after
+/-- **lxml_text_whole**: what the lxml handler passes to `parser.end` for an element whose content
+is `content` and which is followed by `after` among its siblings: `get_text` returns the infoset's text
+— all the character data in front of the first child element — and `get_tail` the infoset's tail — all
+of it up to the next sibling element — however many comments and processing instructions (adjacent
+ones included, with or without character data behind them) libxml2 has split them by.  That is what
+the native handler (expat / ElementTree: no such nodes) passes. -/
+theorem lxml_text_whole (content after : List Content) :
+    (getText (view content).1 (view content).2, getTail (view after).1 (view after).2)
+      = (leadData content, leadData after) := by
+  rw [show getText (view content).1 (view content).2 = leadData content from joinTails_view content,
+    show getTail (view after).1 (view after).2 = leadData after from joinTails_view after]
 
 /-- `AB<?a?><?b?>CD`: two adjacent processing instructions, the first without a tail -/
 example : view [.chars "AB".toList, .misc, .misc, .chars "CD".toList]
@@ -331,21 +330,21 @@ def exNested : Tree :=
 
 example : treeOK (fun _ => false) exNested = true ∧ rootTailBlank Env.ascii exNested = true := by decide
 
-/-- **tree_serializer_same_events**: `TreeSerializer.render` hands its tree builder exactly what
-`XmlSerializer.write` hands its writer — the same events (`EventGenerator.generate`), the same cleaned
-prefix map, the same configuration … -/
-theorem tree_serializer_same_events (e : BEnv) (Γ : Ctx) (scfg : SerCfg) (cfg : WCfg)
+/-- (lemma) the two entry points hand their writer the same input: `generate(obj)`, the cleaned map,
+the configuration — the two methods have the same text -/
+private theorem serializer_inputs_eq (e : BEnv) (Γ : Ctx) (scfg : SerCfg) (cfg : WCfg)
     (userMap : List (Xs.Ns.Pfx × Str)) (v : Val) :
     treeSerializerInput e Γ scfg cfg userMap v = xmlSerializerInput e Γ scfg cfg userMap v := rfl
 
-/-- … and therefore **builds the tree the lxml event writer prints** (with or without indentation),
-for every object. -/
+/-- **tree_serializer_builds_written_tree**: `TreeSerializer.render` builds the tree the lxml event
+writer prints (with or without indentation), for every object: same events, same cleaned prefix map,
+same `etree.indent`. -/
 theorem tree_serializer_builds_written_tree (e : BEnv) (Γ : Ctx) (isDt : Str → Bool) (scfg : SerCfg)
     (cfg : WCfg) (userMap : List (Xs.Ns.Pfx × Str)) (v : Val) :
     treeSerializerRender e Γ isDt scfg cfg userMap v
       = (xmlSerializerRenderLxml e Γ isDt scfg cfg userMap v).map (·.2) := by
   unfold treeSerializerRender xmlSerializerRenderLxml
-  rw [tree_serializer_same_events]
+  rw [serializer_inputs_eq]
   cases xmlSerializerInput e Γ scfg cfg userMap v with
   | error x => rfl
   | ok inp =>
@@ -360,7 +359,7 @@ theorem serializers_agree_flat (e : BEnv) (Γ : Ctx) (isDt : Str → Bool) (scfg
     (userMap : List (Xs.Ns.Pfx × Str)) (v : Val) (hi : indentOn cfg.indent = none) :
     xmlSerializerRenderNative e Γ isDt scfg cfg userMap v = treeSerializerRender e Γ isDt scfg cfg userMap v := by
   unfold xmlSerializerRenderNative treeSerializerRender
-  rw [tree_serializer_same_events]
+  rw [serializer_inputs_eq]
   unfold xmlSerializerInput
   cases generate e Γ scfg v with
   | error x => rfl
@@ -386,5 +385,100 @@ example : lxmlIndent Env.ascii "  ".toList
     (.node "m".toList [] [] (some "t".toList) [.node "a".toList [] [] none [] none, .node "b".toList [] [] none [] none] none)
     = .node "m".toList [] [] (some "t".toList)
         [.node "a".toList [] [] none [] (some "\n  ".toList), .node "b".toList [] [] none [] (some "\n".toList)] none := rfl
+
+/-! ## writers: indentation, both back-ends -/
+
+/-- **indent_writers_agree**: for every event list and every `indent` (off, or a whitespace string),
+whenever the lxml writer / tree serializer produces a tree, the text of the native writer denotes a
+tree too, and the two are the same up to layout: equal once whitespace-only text of elements with
+children and whitespace-only tails are dropped (`stripLayout`; character data with anything else in it,
+and the whitespace content of leaf elements, is compared exactly).  Bridges the stream-level
+`indent_ws_only` and the tree-level `lxml_indent_ws_only`: building the tree commutes with the layout
+normal form of the call stream (`Proofs/C08Bridge.lean`). -/
+theorem indent_writers_agree (e : Env) (isDt : Str → Bool) (indent : Option Str) (evs : List Ev) (tl : Tree)
+    (hind : ∀ i, indentOn indent = some i → i.all e.isSpace = true)
+    (h : lxmlTree e isDt indent evs = .ok tl) :
+    ∃ tn, nativeTree isDt indent evs = .ok tn ∧ stripLayout e tn = stripLayout e tl := by
+  cases hi : indentOn indent with
+  | none => exact ⟨tl, by rw [writers_agree_flat e isDt indent evs hi]; exact h, rfl⟩
+  | some i =>
+    have hWi := hind i hi
+    -- `indent` is `some i`, `i` not empty
+    have hindent : indent = some i ∧ i ≠ [] := by
+      unfold indentOn at hi
+      cases indent with
+      | none => cases hi
+      | some j =>
+        by_cases hj : j.isEmpty = true
+        · simp [hj] at hi
+        · simp only [hj, Bool.false_eq_true, if_false, Option.some.injEq] at hi
+          subst hi
+          exact ⟨rfl, by intro h0; simp [h0] at hj⟩
+    obtain ⟨hin, hne⟩ := hindent
+    subst hin
+    -- the lxml side: the plain stream builds `t0`, `tl` is `t0` indented
+    generalize hm : prefixMap (collectUris evs) = m
+    have hl : ∃ plain t0, eventsSax m isDt evs = .ok plain ∧ saxTree m plain [] none = some t0
+        ∧ tl = lxmlIndent e i t0 := by
+      unfold lxmlTree eventsTree at h
+      simp only [hm, hi] at h
+      cases hp : eventsSax m isDt evs with
+      | error x => simp [hp, bind, Except.bind] at h
+      | ok plain =>
+        cases ht : saxTree m plain [] none with
+        | none => simp [hp, ht, bind, Except.bind, throw, throwThe, MonadExceptOf.throw] at h
+        | some t0 =>
+          refine ⟨plain, t0, rfl, ht, ?_⟩
+          simp [hp, ht, bind, Except.bind, pure, Except.pure] at h
+          exact h.symm
+    obtain ⟨plain, t0, hp, ht0, htl⟩ := hl
+    obtain ⟨calls, hcalls, hnorm⟩ :=
+      indent_ws_only e m isDt i evs plain hne hWi hp (document_chars_inside m plain t0 ht0)
+    -- side conditions of the bridge
+    obtain ⟨wf, hwf, hout⟩ := eventsSax_ok m isDt evs plain hp
+    have hNE : charsNE plain = true := by rw [← hout]; exact run_charsNE m isDt evs {} wf hwf rfl
+    have hsok : saxOK 0 plain = true := saxTree_saxOK m plain [] none t0 ht0 hNE
+    have herase : eraseWs calls = plain := by
+      have := indent_adds_only_ws m isDt (some i) evs
+      rw [hcalls, hp] at this
+      exact Except.ok.inj this
+    have hws : wsAllW e calls = true := by
+      unfold eventsSaxIndent at hcalls
+      cases hf : evs.foldlM (IState.step m isDt (some i)) {} with
+      | error x => rw [hf] at hcalls; cases hcalls
+      | ok sf =>
+        rw [hf] at hcalls
+        cases hcalls
+        exact run_wsAllW e m isDt (some i) (fun j hj => by rw [hi] at hj; cases hj; exact hWi) evs {} sf hf rfl
+    have hokI : bridgeOK e 0 calls = true := by rw [bridgeOK_split, hws, herase, hsok]; rfl
+    have hokP : bridgeOK e 0 (plain.map ISax.sax) = true := by
+      rw [bridgeOK_split, wsAllW_map_sax, eraseWs_map_sax, hsok]; rfl
+    have bI := bridge e m calls 0 [] none [] {} hokI rfl (by show W e [] = true; simp [W])
+    have bP := bridge e m (plain.map ISax.sax) 0 [] none [] {} hokP rfl (by show W e [] = true; simp [W])
+    rw [← layoutNorm_trun] at bI bP
+    rw [renderDoc_map_sax, ht0] at bP
+    rw [hnorm, ← bP] at bI
+    -- the native side
+    cases hn : saxTree m (renderDoc 0 calls) [] none with
+    | none => rw [hn] at bI; simp at bI
+    | some tn =>
+      rw [hn] at bI
+      refine ⟨tn, ?_, ?_⟩
+      · unfold nativeTree
+        simp only [hm, hcalls, hn]
+      · have : stripLayout e tn = stripLayout e t0 := by simpa using bI
+        rw [this, htl, lxml_indent_ws_only e i hWi t0]
+
+/-- not vacuous: the hypothesis on `indent` (two spaces; a tab; off), and mixed content
+`<m>t<a/></m>` where the two trees really differ in layout: lxml gives `<a/>` the tail `"\n"` (the
+native calls for it are the `example` below `indent_ws_only`) -/
+example : (∀ i, indentOn (some "  ".toList) = some i → i.all Env.ascii.isSpace = true)
+    ∧ (∀ i, indentOn (some "\t".toList) = some i → i.all Env.ascii.isSpace = true)
+    ∧ (∀ i, indentOn none = some i → i.all Env.ascii.isSpace = true) := by
+  refine ⟨?_, ?_, ?_⟩ <;> intro i h <;> simp [indentOn] at h <;> subst h <;> decide
+
+example : lxmlIndent Env.ascii "  ".toList
+    (.node "m".toList [] [] (some "t".toList) [.node "a".toList [] [] none [] none] none)
+    = .node "m".toList [] [] (some "t".toList) [.node "a".toList [] [] none [] (some "\n".toList)] none := rfl
 
 end Props.C08
